@@ -1466,10 +1466,18 @@ class SimulationRunner:
         # If loading partial results failed then we will run the FIRST
         # repetition here and the "while" statement after this
         # will run as usual.
+        # Number of times the FIRST repetition raised SkipThisOne
+        num_skipped_first_rep = 0
         if current_sim_results is None:
-            current_sim_results = \
-                self.__run_simulation_and_track_elapsed_time(
-                    current_params)
+            # A skipped repetition is not counted: run the first repetition
+            # again until it returns results.
+            while current_sim_results is None:
+                try:
+                    current_sim_results = \
+                        self.__run_simulation_and_track_elapsed_time(
+                            current_params)
+                except SkipThisOne:
+                    num_skipped_first_rep += 1
             current_rep = 1
         else:
             # The current_rep will be set to the value or run
@@ -1483,6 +1491,8 @@ class SimulationRunner:
         # Add the extra 'num_skipped_reps' Result.
         current_sim_results.add_new_result("num_skipped_reps", Result.SUMTYPE,
                                            0)
+        for _ in range(num_skipped_first_rep):
+            current_sim_results['num_skipped_reps'][-1].update(1)
 
         # Run more iterations until one of the stop criteria is
         # reached. Note that if partial results were loaded successfully
